@@ -31,10 +31,22 @@ package genesis
 //@   trusted
 //@   ensures result == nil <==> g.okPillars
 //@   modifies nothing
-//@ func CheckTokenTotalSupply(g)
+// The abstract flag stays assumed; what IS checked on the body: a configuration passes only if every token standard some
+// genesis account holds is declared in the token configuration (the last of the three loops; `visited` is the ghost set of
+// keys the range loop over the map has produced).
+//@ spec declaredUpTo(g *GenesisConfig, z types.ZenonTokenStandard, n int) bool = exists k int :: 0 <= k && k < n && k < len(g.TokenConfig.Tokens) && g.TokenConfig.Tokens[k].TokenStandard == z
+//@ func CheckTokenTotalSupply(g) -> (err)
 //@   trusted
+//@   requires g != nil && g.TokenConfig != nil && g.GenesisBlocks != nil
+//@   requires forall k int :: 0 <= k && k < len(g.TokenConfig.Tokens) ==> g.TokenConfig.Tokens[k] != nil && g.TokenConfig.Tokens[k].TotalSupply != nil
+//@   requires forall k int :: 0 <= k && k < len(g.GenesisBlocks.Blocks) ==> g.GenesisBlocks.Blocks[k] != nil
 //@   ensures result == nil <==> g.okSupply
+//@   ensures-local[every-held-token-is-declared] err == nil ==> (forall z types.ZenonTokenStandard :: has(given, z) ==> declaredUpTo(g, z, len(g.TokenConfig.Tokens)))
 //@   modifies nothing
+//@   loop 4
+//@     invariant forall z types.ZenonTokenStandard :: visited(given, z) ==> declaredUpTo(g, z, len(g.TokenConfig.Tokens))
+//@   loop 5
+//@     invariant found ==> declaredUpTo(g, zts, rangeindex#3 + 1)
 
 //@ func CheckGenesis(g)
 //@   requires g != nil
